@@ -51,11 +51,21 @@ TruthsP == {[BaseG EXCEPT !.cues = <<[SimpleCue(0, 1000) EXCEPT !.id = i1, !.not
                                      [SimpleCue(2000, 3000) EXCEPT !.id = i2, !.notes = n2, !.lines = <<Line1(v2, <<Run1(2, s2, 0)>>)>>]>>] :
               i1 \in {0, 5}, i2 \in {0, 9}, n1 \in {<<>>, <<1>>}, n2 \in {<<>>, <<2>>}, s1 \in StacksSmall, s2 \in StacksSmall, v2 \in {0, 1}}
 
-Truths(fam) == CASE fam = "H" -> TruthsHOK [] fam = "C" -> TruthsC [] fam = "P" -> TruthsP
+\* N: nesting - tags of the same name inside one another (class spans in class spans, i in b in i), runs that leave
+\* the inner span only, up to three runs on a line
+Tc3 == [name |-> "c", cls |-> <<3>>, ann |-> 0]
+StacksN == {<<>>, <<Tc1>>, <<Tc1, Tc2>>, <<Tc1, Tc2, Tc3>>, <<Ti>>, <<Ti, Tb>>, <<Ti, Tb, Ti>>}
+RunSeqsN == {rs \in {<<Run1(1, s1, 0), Run1(2, s2, 0)>> : s1 \in StacksN, s2 \in StacksN} : rs[1].tags # rs[2].tags}
+            \cup {rs \in {<<Run1(1, s1, 0), Run1(2, s2, 0), Run1(3, s3, 0)>> : s1 \in StacksN, s2 \in StacksN, s3 \in StacksN} :
+                     rs[1].tags # rs[2].tags /\ rs[2].tags # rs[3].tags}
+TruthsN == {[BaseG EXCEPT !.cues = <<[SimpleCue(0, 1500) EXCEPT !.lines = <<Line1(0, rs)>>]>>] : rs \in RunSeqsN}
+
+Truths(fam) == CASE fam = "H" -> TruthsHOK [] fam = "C" -> TruthsC [] fam = "P" -> TruthsP [] fam = "N" -> TruthsN
 Vars(fam) == IF Wide THEN AllVars ELSE
              CASE fam = "H" -> [AllVars EXCEPT !.hrs = {TRUE}, !.tabs = {FALSE}]
                [] fam = "C" -> [AllVars EXCEPT !.trails = {FALSE}, !.eols = {"lf"}, !.boms = {FALSE}]
                [] fam = "P" -> [AllVars EXCEPT !.trails = {FALSE}, !.eols = {"crlf"}, !.boms = {TRUE}, !.hrs = {FALSE}, !.tabs = {FALSE}]
+               [] fam = "N" -> [AllVars EXCEPT !.trails = {FALSE}, !.eols = {"lf"}, !.boms = {FALSE}, !.hrs = {FALSE}, !.tabs = {FALSE}]
 
 Init == g \in Truths(FAM) /\ d = [eol |-> "", bom |-> FALSE, toks |-> <<>>]
 Next == d.eol = "" /\ d' \in Renderings(g, Vars(FAM)) /\ UNCHANGED g
